@@ -384,6 +384,11 @@ def fungible_family():
             st(lbuf(2, 'u8', S('f32'))), st(vec(S('f32'))), st(arr(2, S('i32'))), st(lbuf(2, 'u16', w32))]
     out += [('opt', S('i32')), ('opt', w32), ('res', 1, 'i32', S('i32')), ('res', 2, 'u8', S('i32')), ('res', 1, 'i32', w32),
             ('var', [S('i32'), ('str', 1)]), ('var', [w32, ('str', 1)]), ('var', [('str', 1), S('i32')]), S('i32'), w32, ('wrap', 3, w32)]
+    # tables whose entries hold fungible structures: the entry's SIZE field is computed from the member's size, so a
+    # partially filled buffer must size like the vector that holds the same elements
+    FG = 0x0f0f0f0f0f0f
+    out += [('tab', FG, [(0, True, st(vec(S('u32')))), (1, True, S('u8'))]), ('tab', FG, [(0, True, st(lbuf(6, 'u8', S('u32')))), (1, True, S('u8'))]),
+            ('tab', FG + 1, [(3, True, st(vec(S('f32'))))]), ('tab', FG + 1, [(3, True, st(lbuf(5, 'u16', S('f32'), False)))])]
     seen, res = set(), []
     for t in out:
         if desc(t) not in seen:
@@ -572,6 +577,97 @@ def gen_value(t, rng, depth=0):
 def gen_elem(t, rng, depth):
     # array<bool> elements: keep to 0/1 when the harness builds them (other octets come from the decode side)
     return gen_value(t, rng, depth + 1)
+
+
+
+# ---------------------------------------------------------- overfull containers --
+def bounded_seqs(t):
+    return [x for x in walk(t) if x[0] == 'seq' and x[1][0] != 'vec']
+
+
+def widen(t):
+    """the same type with every array / logical buffer replaced by a vector: the wire format is the same and the model's
+    format encoder then accepts any element count.  Used only to PRODUCE encodings that overfill a bounded destination."""
+    k = t[0]
+    if k == 'seq':
+        return ('seq', ('vec',), widen(t[2]))
+    if k == 'tup':
+        return ('tup', t[1], [widen(x) for x in t[2]])
+    if k == 'wrap':
+        return ('wrap', t[1], widen(t[2]))
+    if k == 'map':
+        return ('map', t[1], widen(t[2]), widen(t[3]))
+    if k == 'opt':
+        return ('opt', widen(t[1]))
+    if k == 'res':
+        return ('res', t[1], t[2], widen(t[3]))
+    if k == 'var':
+        return ('var', [widen(x) for x in t[1]])
+    if k == 'tab':
+        return ('tab', t[1], [(i, a, widen(x)) for i, a, x in t[2]])
+    return t
+
+
+def overfull_counts(t, rng):
+    """element counts above the capacity of the bounded container t, aimed at the places where a narrowed or wrapped
+    count would pass a capacity check: cap+1, and cap-or-less modulo 2^8 / 2^16"""
+    cap = t[1][2]
+    small = is_integral(t[2]) or (t[2][0] == 's' and t[2][2] in ('f32', 'f64', 'bool'))
+    out = [cap + 1, cap + 2, 256 + rng.randint(0, cap), 256, 512 + rng.randint(0, cap), 255, 257]
+    if small:
+        out += [65536 + rng.randint(0, cap), 65536]
+    return [n for n in out if n > cap]
+
+
+def gen_overfull(t, rng):
+    """(value text of widen(t), count, element) with ONE bounded container holding more elements than it has room for;
+    None when t has no bounded container on the generated path"""
+    bs = bounded_seqs(t)
+    if not bs:
+        return None
+    which = rng.randrange(len(bs))
+    state = {'i': 0, 'n': None}
+
+    def go(t, depth):
+        k = t[0]
+        if k == 'seq' and t[1][0] != 'vec':
+            mine = state['i'] == which
+            state['i'] += 1
+            if mine:
+                n = rng.choice(overfull_counts(t, rng))
+                state['n'] = n
+                if n > 300:          # long runs repeat one element; the caller splices the bytes (see props.check_C02)
+                    state['one'] = gen_value(t[2], rng, 3)
+                    return '(seq@@)'
+                return '(seq%s)' % ''.join(' ' + gen_value(t[2], rng, 3) for _ in range(n))
+            n = t[1][2] if t[1][0] == 'arr' else rng.randint(0, t[1][2])
+            return '(seq%s)' % ''.join(' ' + go(t[2], depth + 1) for _ in range(n))
+        if k == 'seq':
+            return '(seq%s)' % ''.join(' ' + go(t[2], depth + 1) for _ in range(rng.choice([1, 2])))
+        if k == 'tup':
+            return '(seq%s)' % ''.join(' ' + go(x, depth + 1) for x in t[2])
+        if k == 'wrap':
+            return go(t[2], depth)
+        if k == 'opt':
+            return '(some %s)' % go(t[1], depth + 1)
+        if k == 'res':
+            return '(ok %s)' % go(t[3], depth + 1)
+        if k == 'tab':
+            return '(tab%s)' % ''.join(' ' + ('(some %s)' % go(et, depth + 1) if act else 'none') for _, act, et in t[2])
+        if k == 'var':
+            # take the alternative that holds the chosen container when there is one
+            for i, a in enumerate(t[1]):
+                cnt = len(bounded_seqs(a))
+                if state['i'] <= which < state['i'] + cnt:
+                    return '(alt %d %s)' % (i, go(a, depth + 1))
+                state['i'] += cnt
+            return 'empty'
+        if k == 'map':
+            state['i'] += len(bounded_seqs(t[2])) + len(bounded_seqs(t[3]))
+            return gen_value(t, rng, 3)
+        return gen_value(t, rng, 3)
+    v = go(t, 0)
+    return (v, state['n'], state.get('one')) if state['n'] is not None else None
 
 
 def emit_pool(pool, path_h, path_txt, shards=16):
